@@ -543,8 +543,26 @@ func sectionRules(P *Program, r *Result, ruleErr, ruleMap string) {
 			for _, c := range callsIn(rk) {
 				cc, isCall := c.(*ssa.Call)
 				cal := c.Common().StaticCallee()
-				if !isCall || cal == nil || cal.Name() != "Bytes2Uint8" || !inRepo(cal) || len(c.Common().Args) < 1 || c.Common().Args[0] != ssa.Value(buf) {
+				if !isCall || cal == nil || cal.Name() != "Bytes2Uint8" || !inRepo(cal) || len(c.Common().Args) < 1 {
 					continue
+				}
+				// the buffer itself, or the not yet consumed rest of it (a cursor kept as an advancing sub-slice)
+				if a0 := c.Common().Args[0]; a0 != ssa.Value(buf) {
+					isRest := false
+					if d := fa.sliceDesc(a0); d != nil && d.Root == ssa.Value(buf) {
+						isRest = true
+					}
+					// the rest as the loop carries it round (the section readers hand back what they left)
+					if ph, isPhi := a0.(*ssa.Phi); isPhi && ph.Block() == header && isByteSlice(ph.Type()) {
+						for _, e := range ph.Edges {
+							if e == ssa.Value(buf) {
+								isRest = true
+							}
+						}
+					}
+					if !isRest {
+						continue
+					}
 				}
 				ev := resultValue(cc, errIndex(cal))
 				if ev == nil {
@@ -1039,6 +1057,7 @@ func checkC06(P *Program, r *Result, tier string) {
 	}
 	copyRules(P, r, "COPIES", []*ssa.Function{P.Func(relTT, "ReadString2BLen")})
 	sectionRules(P, r, "SECTION-COMPLETE", "MAP-KEEP")
+	errDisciplineRule(P, r, "ERR-USED", pkgFuncs(P, relTT))
 	r.assume("bufiox.Writer.Malloc(n) returns exactly n bytes when err == nil; WriteBinary writes all of its argument or fails (interface contracts)")
 	r.assume("map contents after the round trip follow from the per-primitive pairing (argued in DESIGN.md), not decided here")
 }
